@@ -156,8 +156,8 @@ prop(
         dict(engine="sievemon", profile="release", args=["--every-max", "12000"], group="all",
              tiers=("quick",)),
         dict(engine="sievemon", profile="release", args=[], group="all", tiers=("thorough",)),
-        dict(engine="sievemon", profile="dev", args=["--mode", "every_limit"], group="all",
-             label="sievemon/dev/every_limit (overflow + bounds checks on)"),
+        dict(engine="sievemon", profile="dev", args=[], group="all",
+             label="sievemon/dev (overflow + bounds checks on)"),
     ],
     floor=dict(quick=10_000, thorough=30_000),
     counter_floors=dict(quick=dict(entries_checked=300_000_000, limit_classes=10), thorough=dict(entries_checked=2_000_000_000)),
@@ -555,8 +555,9 @@ prop(
                "bit-pattern pairs and 20 000 chains of depth 2-4 whose intermediates need all 64 significand bits "
                "(x10 in thorough). Natively only: Miri cannot execute inline assembly and valgrind emulates x87 with 64-bit doubles.",
     level_note="Trusted: the Python oracle (exact big-integer arithmetic) and the assumption, checked at start-up, that the x87 "
-               "control word selects extended precision and round-to-nearest. Not judged because the property speaks about "
-               "values: the sign of a zero result, the NaN encoding, and which operand min/max return when one is NaN.",
+               "control word selects extended precision and round-to-nearest. Zero results of + - * / and negation must carry "
+               "the IEEE sign. Not judged because the property speaks about values there: the sign of a zero returned by "
+               "abs/min/max, the NaN encoding, and which operand min/max return when one is NaN.",
     custom=custom.c18_custom,
     replay=custom.c18_replay,
     floor=dict(quick=700_000, thorough=5_000_000),
